@@ -67,4 +67,5 @@ CASES = [
     dict(name="twin-sine-clamped-to-quarter-turn", kind="twin", file="tools/geometric.py", old="    return diameter * np.sin(np.divide(dist, diameter))", new="    return diameter * np.sin(np.minimum(np.divide(dist, diameter), np.pi / 2))"),
     dict(name="arcsine-clamp-half", file="tools/geometric.py", expect="R13.2", old="        np.maximum(np.minimum(np.divide(dist, diameter), 1), 0)\n    )\n", new="        np.maximum(np.minimum(np.divide(dist, diameter), 0.5), 0)\n    )\n"),
     dict(name="fit-curve-uses-yadrenko", file="covmodel/fit.py", expect="R13.3", old="        x_data = great_circle_to_chordal(x_data, model.geo_scale)", new="        x_data = great_circle_to_chordal(x_data, model.geo_scale)\n        model.vario_yadrenko(x_data)"),
+    dict(name="chord-inner-scale-mismatch", file="tools/geometric.py", expect="R13.2", old="    return diameter * np.sin(np.divide(dist, diameter))\n", new="    return diameter * np.sin(np.divide(dist, radius))\n"),
 ]
